@@ -40,6 +40,10 @@ pub struct Case {
     pub after: u8,
     pub open_delay: u8,
     pub flush_ms: bool,
+    /// forget path only: the appends after forget() and the drop of the last handle happen while
+    /// the writer thread is inside one of its periodic stream flushes
+    #[serde(default)]
+    pub during_flush: bool,
 }
 
 metrique_writer::sink::global_entry_sink! { C05Global }
@@ -53,7 +57,9 @@ pub fn check(case: &Case) -> CaseResult {
     };
     let log = Arc::new(EventLog::default());
     let gate = Gate::new(false);
-    let stream = BqStream::new(vec![], gate.clone(), log.clone());
+    let mut stream = BqStream::new(vec![], gate.clone(), log.clone());
+    let hold = Arc::new(FlushHold::default());
+    stream.flush_hold = Some(hold.clone());
     let interval = if case.flush_ms { Duration::from_millis(1) } else { Duration::from_micros(50) };
     let (q, handle) = build_queue(100_000, case.boxed || case.end == End::GlobalDetach, interval, stream);
     let mut attach = None;
@@ -216,12 +222,28 @@ pub fn check(case: &Case) -> CaseResult {
         }
         End::Forget => {
             no_panic("forget", || handle.take().unwrap().forget())?;
-            // more appends after forgetting are still delivered
-            do_append(&handles, case.after as usize, &mut seq, &log);
             drop(flushes);
-            gate.open();
-            log.push(Ev::LastQueueHandleDropped);
-            drop(handles);
+            if case.during_flush {
+                // let the writer drain, then catch it inside a periodic flush and append + drop
+                // the last handle while it is held there
+                gate.open();
+                hold.arm();
+                if !hold.wait_in_flush(Duration::from_secs(5)) {
+                    hold.release();
+                    return Ok(vec!["inconclusive-timeout"]);
+                }
+                do_append(&handles, case.after as usize, &mut seq, &log);
+                log.push(Ev::LastQueueHandleDropped);
+                drop(handles);
+                hold.release();
+                classes.push("last-handle-dropped-during-periodic-flush");
+            } else {
+                // more appends after forgetting are still delivered
+                do_append(&handles, case.after as usize, &mut seq, &log);
+                gate.open();
+                log.push(Ev::LastQueueHandleDropped);
+                drop(handles);
+            }
             // decided by counting: a correct writer performs O(1) further stream flushes and then
             // drops the stream; a writer that never notices keeps flushing every interval
             let t0 = std::time::Instant::now();
@@ -277,7 +299,7 @@ pub fn check(case: &Case) -> CaseResult {
     Ok(classes)
 }
 
-pub const RULE: &str = "histories of Append(n) / Clone / DropClone / FlushReq / Grant(k) on a typed or boxed queue whose writer is stalled behind a fuel gate, ended by (a) dropping the join handle while entries are still queued (a helper opens the gate after the drop began), (b) forgetting the join handle and dropping every queue handle, (c) the same queue attached to a harness-declared global_entry_sink! and detached by dropping the AttachHandle; then appends after the end. Oracle over the event log: when the drop returns every entry appended before it began has reached the stream, the stream was flushed after the last of them and dropped; later appends never appear (try_append hands the entry back for a detached global); pending flush futures complete. Forget path, decided by counting: after the last queue handle is dropped the stream must be drained, flushed and dropped before 60 further periodic stream flushes are observed (else 'runs forever'); 10 s without either is inconclusive. Non-trivial = shutdown begins with entries still queued, or the forget path";
+pub const RULE: &str = "histories of Append(n) / Clone / DropClone / FlushReq / Grant(k) on a typed or boxed queue whose writer is stalled behind a fuel gate, ended by (a) dropping the join handle while entries are still queued (a helper opens the gate after the drop began), (b) forgetting the join handle and dropping every queue handle - also with the last appends and the drop of the last handle placed while the writer thread is held inside one of its periodic stream flushes (harness-owned flush callback), (c) the same queue attached to a harness-declared global_entry_sink! and detached by dropping the AttachHandle; then appends after the end. Oracle over the event log: when the drop returns every entry appended before it began has reached the stream, the stream was flushed after the last of them and dropped; later appends never appear (try_append hands the entry back for a detached global); pending flush futures complete. Forget path, decided by counting: after the last queue handle is dropped the stream must be drained, flushed and dropped before 60 further periodic stream flushes are observed (else 'runs forever'); 10 s without either is inconclusive. Non-trivial = shutdown begins with entries still queued, or the forget path";
 
 pub fn run(ctx: &mut Ctx) {
     ctx.assume("termination of the forgotten queue is decided by counting the writer's periodic stream flushes (flush interval 1 ms / 50 us), never by a wall-clock deadline");
@@ -286,7 +308,7 @@ pub fn run(ctx: &mut Ctx) {
         SubCfg::new("c05-shutdown", RULE, if q { 500 } else { 12_000 })
             .threads(ctx.tier.pick(4, 8))
             .shrink_iters(60)
-            .mandatory(&["entries-queued-at-shutdown", "forget-path", "drop-handle", "global-detach", "append-after-shutdown"]),
+            .mandatory(&["entries-queued-at-shutdown", "forget-path", "drop-handle", "global-detach", "append-after-shutdown", "last-handle-dropped-during-periodic-flush"]),
         || {
             (
                 any::<bool>(),
@@ -304,14 +326,16 @@ pub fn run(ctx: &mut Ctx) {
                 0u8..6,
                 any::<u8>(),
                 any::<bool>(),
+                any::<bool>(),
             )
-                .prop_map(|(boxed, ops, end, after, open_delay, flush_ms)| Case {
+                .prop_map(|(boxed, ops, end, after, open_delay, flush_ms, during_flush)| Case {
                     boxed,
                     ops,
                     end,
                     after,
                     open_delay,
                     flush_ms,
+                    during_flush,
                 })
         },
         check,
